@@ -1,6 +1,6 @@
 PLAN['C13'] = dict(
     level='exploration',
-    units=std_units('C13', [('asan', 'sdcz', 10000, 250000), ('asan-vb', 'sdcz', 3000, 60000), ('asan-i64', 'sdcz', 1500, 30000)], chunk=250),
+    units=std_units('C13', [('asan', 'sdcz', 20000, 250000), ('asan-vb', 'sdcz', 6000, 60000), ('asan-i64', 'sdcz', 3000, 30000)], chunk=250),
     rule='generated nonsingular-by-pattern unsymmetric systems (n 1..48, 12 pattern x 6 value classes, row/column/two-sided scaling, graded) x Trans x Equil x NC/NR x ColPerm x u x tuning x IterRefine in {NOREFINE 18%, SLU_SINGLE, SLU_DOUBLE, SLU_EXTRA}; '
          '45% of the cases get a weak diagonal (1..n/4 diagonal entries scaled by 10^-1..-6/-14) with u in {0, 1e-8, 1e-4, 1e-2} so that the first solve has a large backward error and refinement runs 1..5 steps; '
          'nrhs 1..3 with zero columns, columns with zero components, columns below safe2 (safe1/safe2 branch), badly scaled columns, A*y columns. '
